@@ -220,3 +220,84 @@ def r6w(ctx: Ctx, modules: tuple[str, ...] = ("cirkit.backend", "cirkit.pipeline
                         out.append(viol("R6w", c.qualname, f"weak-storage:{m.name}", f"{c.name}.{m.name} stores registrations in {full}(..): an entry disappears as soon as nothing else references its key / value -- lookups of a registered circuit (has_symbolic, get_symbolic_circuit, compiling it again) then fail or build a second object", f"{c.module.relpath}:{n.lineno}"))
     out.append(ok("R6w", "cirkit", "weak-storage", f"{n_cls} registry-side classes scanned: no weak container", "", nontrivial=(n_cls > 0)))
     return out
+
+
+# ------------------------------------------------------------------------------------------ R6t
+def r6t(ctx: Ctx) -> list[Ob]:
+    """R6t -- a registry owns its table.
+
+    A registry class (``*Registry``) that is constructed from a mapping and has a mutator (a method
+    that stores into that mapping) has to *copy* the mapping in its constructor: the compilers are
+    created with the module-level ``DEFAULT_*_RULES`` tables, so a registry that keeps the dict it was
+    given turns ``add_rule`` on one compiler / pipeline context into a change of every other one --
+    created earlier, later, and the default context.  (And every call site that hands a module-level
+    table to a registry is listed, so that the set of shared tables is visible.)"""
+    from ..model import is_self_attr, unparse, walk_no_nested
+
+    out: list[Ob] = []
+    n = 0
+    for c in ctx.repo.classes.values():
+        if not c.module.name.startswith("cirkit") or not c.name.endswith("Registry"):
+            continue
+        init = c.methods.get("__init__")
+        if init is None:
+            continue
+        dict_params = [p.name for p in init.params if p.annotation is not None and any(k in unparse(p.annotation) for k in ("dict", "Dict", "Mapping"))]
+        if not dict_params:
+            continue
+        stores: dict[str, tuple[ast.AST, int]] = {}
+        for st in walk_no_nested(init.node):
+            if isinstance(st, (ast.Assign, ast.AnnAssign)) and st.value is not None:
+                tgts = st.targets if isinstance(st, ast.Assign) else [st.target]
+                for t in tgts:
+                    a = is_self_attr(t)
+                    if a and any(isinstance(x, ast.Name) and x.id in dict_params for x in ast.walk(st.value)):
+                        stores[a] = (st.value, st.lineno)
+        for attr, (val, ln) in stores.items():
+            # is the attribute mutated by some method of the class or of a subclass?
+            mutated = False
+            for k in [c] + [s for s in ctx.repo.classes.values() if ctx.repo.is_subclass(s, c) and s is not c]:
+                for m in k.methods.values():
+                    if m.name == "__init__":
+                        continue
+                    for x in walk_no_nested(m.node):
+                        if isinstance(x, (ast.Assign, ast.AugAssign)):
+                            for t in (x.targets if isinstance(x, ast.Assign) else [x.target]):
+                                if isinstance(t, ast.Subscript) and is_self_attr(t.value) == attr:
+                                    mutated = True
+                        if isinstance(x, ast.Call) and isinstance(x.func, ast.Attribute) and x.func.attr in ("update", "pop", "setdefault", "clear", "__setitem__", "popitem") and is_self_attr(x.func.value) == attr:
+                            mutated = True
+                        if isinstance(x, ast.Delete) and any(isinstance(t, ast.Subscript) and is_self_attr(t.value) == attr for t in x.targets):
+                            mutated = True
+            if not mutated:
+                continue
+            n += 1
+            loc = f"{init.module.relpath}:{ln}"
+            # every occurrence of a dict parameter inside the stored value must sit under a copying call
+            def copied(e: ast.AST, under: bool = False) -> bool:
+                if isinstance(e, ast.Call):
+                    nm = e.func.attr if isinstance(e.func, ast.Attribute) else getattr(e.func, "id", "")
+                    if nm in ("dict", "copy", "deepcopy", "OrderedDict", "defaultdict", "ChainMap") and nm != "ChainMap":
+                        under = True
+                if isinstance(e, (ast.Dict, ast.DictComp)):
+                    under = True
+                if isinstance(e, ast.Name) and e.id in dict_params and not under:
+                    # the bare name in a test position (`x is None`) is not a stored alias
+                    return False
+                return all(copied(ch, under) for ch in ast.iter_child_nodes(e))
+
+            def strip_tests(e: ast.AST) -> ast.AST:
+                # `A if <test> else B`: only A and B can be stored
+                if isinstance(e, ast.IfExp):
+                    return ast.Tuple(elts=[strip_tests(e.body), strip_tests(e.orelse)], ctx=ast.Load())
+                if isinstance(e, ast.BoolOp):
+                    return ast.Tuple(elts=[strip_tests(v) for v in e.values], ctx=ast.Load())
+                return e
+
+            if copied(strip_tests(val)):
+                out.append(ok("R6t", c.qualname, f"owns:{attr}", f"the table given to the constructor is copied (`{unparse(val)[:50]}`)", loc))
+            else:
+                out.append(viol("R6t", c.qualname, f"owns:{attr}", f"`self.{attr} = {unparse(val)[:60]}` keeps the mapping it was given and the class mutates it (add_rule ..): every registry constructed from the same table -- the module-level default rules handed to each compiler -- sees the rule, so a rule added in one pipeline context is active in all the others", loc))
+    if n == 0:
+        out.append(unres("R6t", "cirkit", "owns", "no registry class constructed from a mapping it later mutates (another formulation): no verdict", ""))
+    return out
